@@ -31,7 +31,19 @@ from .atom import entry_points
 from .guard import EFFECT_CALLS, HOLDING_FIELDS, OPAQUE
 from .sign import derivative, subst
 
-WALLET_CALLS = {"subtract_from_balance": 1, "add_to_balance": 1, "_subtract_from_balance": 0, "_add_to_balance": 0}
+WALLET_CALLS = {"subtract_from_balance": (1,), "add_to_balance": (1,), "_subtract_from_balance": (0,), "_add_to_balance": (0,),
+                # internal primitives of the Uniswap market that move the amounts they are given (analysed on their own below):
+                # the public wrappers are checked up to the hand-over
+                "_add_liquidity_by_tick": (0, 1), "__remove_liquidity": (1,), "__collect_fee": (1, 2)}
+# C03's quantifier excludes "swaps with a caller-chosen execution price": the price argument of the swap family is outside
+# the property's domain (one symbol each)
+OUT_OF_DOMAIN = {("UniLpMarket.swap", "price"), ("UniLpMarket.buy", "price"), ("UniLpMarket.sell", "price"), ("UniLpMarket.even_rebalance", "price")}
+PRIVATE_ENTRIES = ("UniLpMarket._add_liquidity_by_tick", "UniLpMarket.__remove_liquidity", "UniLpMarket.__collect_fee")
+MORE_OPAQUE = ["base_unit_price_to_sqrt_price_x96", "sqrt_price_x96_to_tick", "get_sqrt_ratio_at_tick", "get_liquidity_for_amount0",
+               "get_liquidity_for_amount1", "get_liquidity", "estimate_amount", "base_unit_price_to_tick", "estimate_ratio",
+               "nearest_usable_tick", "price_to_tick", "get_swap_value_with_part_balance_used", "get_token_balance",
+               "get_token_balance_with_unit", "tick_to_base_unit_price", "get_token_amounts", "get_mint_amount", "getOutputAmount",
+               "new_position", "close_position", "quote_price_pair_to_tick", "tick_to_price", "get_position_amount", "_convert_pair"]
 
 
 def _terms_of(x):
@@ -42,9 +54,29 @@ def _terms_of(x):
         return []
 
 
+def _scalar_syms(x, out, depth=0):
+    """Parameters that occur in x AS NUMBERS: as atoms of the polynomial itself or under min / max / floor / int / abs /
+    round - not as a selector inside an index, an attribute path or the arguments of an opaque call."""
+    if depth > 8:
+        return
+    if isinstance(x, Rat):
+        for a in x.atoms():
+            _scalar_syms(a, out, depth + 1)
+        return
+    if isinstance(x, tuple) and x:
+        if len(x) == 2 and x[0] == "sym" and isinstance(x[1], str):
+            out.add(x[1])
+        elif x[0] in ("min", "max") and len(x) >= 2 and isinstance(x[1], (frozenset, set, tuple, list)):
+            for y in x[1]:
+                _scalar_syms(y, out, depth + 1)
+        elif x[0] in ("floor", "int", "abs", "round", "expr", "neg") and len(x) >= 2:
+            _scalar_syms(x[1], out, depth + 1)
+
+
 def _mentions(x, p: str) -> bool:
-    want = ("sym", p)
-    return any(a == want for a in _terms_of(x))
+    out = set()
+    _scalar_syms(x, out)
+    return p in out
 
 
 def _nonneg_const_or_state(r: Rat, params) -> bool:
@@ -52,14 +84,36 @@ def _nonneg_const_or_state(r: Rat, params) -> bool:
     non-negative (holdings, prices, indices are non-negative quantities)."""
     if r.is_const():
         return r.const_value() >= 0
-    if any(("sym", q) in set(_terms_of(r)) for q in params):
+    if any(_mentions(r, q) for q in params):
         return False
     return all(c >= 0 for c in r.n.t.values()) and all(c > 0 for c in r.d.t.values())
+
+
+def amount_guarded(amt, conds) -> Optional[str]:
+    """The moved amount itself is tested on the path: a condition `-A < 0` / `-A <= 0` (the surviving arm of `if A > 0:`)."""
+    if not isinstance(amt, Rat):
+        if isinstance(amt, tuple) and len(amt) == 2 and amt[0] == "expr" and isinstance(amt[1], Rat):
+            amt = amt[1]
+        elif isinstance(amt, tuple) and amt and amt[0] in ("sym", "attr", "idx", "call", "prop", "m", "ret", "item"):
+            amt = Rat.atom(amt)
+        else:
+            return None
+    for c in conds:
+        if isinstance(c, Cond) and c.op in ("<", "<=") and isinstance(c.x, Rat):
+            try:
+                q = c.x / amt
+            except ZeroDivisionError:
+                continue
+            if q.is_const() and q.const_value() < 0:
+                return f"{c!r}"
+    return None
 
 
 def lower_bounded(p: str, conds, params) -> Optional[str]:
     atom = ("sym", p)
     for c in conds:
+        if isinstance(c, Cond) and c.op == "false" and c.x == atom:
+            return f"{c!r}"            # `if p and ...`: on this path p is zero / None / empty
         if not isinstance(c, Cond) or not isinstance(c.x, Rat):
             continue
         if atom not in c.x.atoms():
@@ -81,19 +135,22 @@ def run_posarg(model: Model, res, rule: str = "R-POS", max_paths: int = 3000):
     n_ops = 0
     n_mov = 0
     undecided: List[str] = []
-    for f, c in entry_points(model):
+    eps = list(entry_points(model))
+    fxcalls = sorted(set(EFFECT_CALLS) | set(WALLET_CALLS))
+    for f, c in eps:
         params = [p for p in f.params[1:] + f.kwonly]
         if not params:
             continue
         try:
-            ev = Evaluator(model, opaque_funcs=OPAQUE, max_paths=max_paths)
-            paths = ev.effect_paths(f, EFFECT_CALLS, c)
+            ev = Evaluator(model, opaque_funcs=OPAQUE + MORE_OPAQUE, max_paths=max_paths)
+            paths = ev.effect_paths(f, [x for x in fxcalls if x != f.name], c)
         except (Unreadable, BudgetExceeded) as e:
             undecided.append(f"{c.name}.{f.name} ({str(e)[:60]})")
             continue
         except RecursionError:
             undecided.append(f"{c.name}.{f.name} (recursion)")
             continue
+        entry_name = f"{c.name}.{f.name}"
         moves_any = False
         bad: Dict[str, Tuple[str, str, list]] = {}
         okp: Dict[str, str] = {}
@@ -101,28 +158,31 @@ def run_posarg(model: Model, res, rule: str = "R-POS", max_paths: int = 3000):
             if isinstance(ret, Raise):
                 continue
             for e in env.get("$fx", ()):
-                amt = None
                 what = None
+                amts = []
                 if e[0] == "call" and e[1] in WALLET_CALLS:
                     args = dict(e[3]) if not isinstance(e[3], dict) else e[3]
-                    amt = args.get(str(WALLET_CALLS[e[1]]))
-                    if amt is None:
-                        amt = args.get("amount")
+                    amts = [args.get(str(i)) for i in WALLET_CALLS[e[1]] if args.get(str(i)) is not None]
+                    if not amts and args.get("amount") is not None:
+                        amts = [args.get("amount")]
                     what = f"{e[1]}(...)"
                 elif e[0] == "store" and isinstance(e[1], tuple) and e[1][0] == "attr" and e[1][2] in HOLDING_FIELDS and e[2] in ("aug:Add", "aug:Sub"):
-                    amt = e[3]
+                    amts = [e[3]]
                     what = f"{e[1][2]} {'+=' if e[2] == 'aug:Add' else '-='}"
                 elif e[0] == "expr" and isinstance(e[1], tuple) and len(e[1]) >= 4 and e[1][0] == "m" and e[1][1] in ("add", "sub"):
-                    amt = e[1][3]
+                    amts = [e[1][3]]
                     what = f"Asset.{e[1][1]}(...)"
-                if amt is None:
+                if not amts:
                     continue
                 moves_any = True
                 n_mov += 1
                 for p in params:
-                    if not _mentions(amt, p):
+                    if not any(_mentions(a_, p) for a_ in amts):
                         continue
-                    lb = lower_bounded(p, conds, params)
+                    amt = next(a_ for a_ in amts if _mentions(a_, p))
+                    if (entry_name, p) in OUT_OF_DOMAIN:
+                        continue
+                    lb = lower_bounded(p, conds, params) or amount_guarded(amt, conds)
                     if lb is None:
                         bad.setdefault(p, (what, repr(amt)[:120], sorted(map(repr, conds))[:3]))
                     else:
